@@ -30,6 +30,42 @@ BUILTINS = {
     'unity_size': {'kind': 'integer', 'min': 2, 'max': None, 'default': '4'},
 }
 
+# Builtin options the histories give for the build directory as a whole (never per subproject), whose handling is special at
+# the FIRST configuration: the prefix is split off and applied before everything else, some directory defaults are derived from
+# it, buildtype is expanded, and all of them have a dedicated command-line spelling (--prefix, --libdir, --buildtype ...).
+# Defaults: Builtin-options.md, "Directories" / "Core options"; None = the document gives no fixed default (platform dependent):
+# such an option is only compared while the user has given it a value.
+GLOBALS: T.Dict[str, T.Dict[str, T.Any]] = {
+    'prefix': {'kind': 'string', 'default': '/usr/local'},
+    'bindir': {'kind': 'string', 'default': 'bin'},
+    'datadir': {'kind': 'string', 'default': 'share'},
+    'includedir': {'kind': 'string', 'default': 'include'},
+    'mandir': {'kind': 'string', 'default': 'share/man'},
+    'libexecdir': {'kind': 'string', 'default': 'libexec'},
+    'libdir': {'kind': 'string', 'default': None},
+    'sysconfdir': {'kind': 'string', 'default': 'etc'},
+    'localstatedir': {'kind': 'string', 'default': 'var'},
+    'sharedstatedir': {'kind': 'string', 'default': 'com'},
+    'buildtype': {'kind': 'combo', 'choices': ['plain', 'debug', 'debugoptimized', 'release', 'minsize', 'custom'], 'default': 'debug'},
+    'default_library': {'kind': 'combo', 'choices': ['shared', 'static', 'both'], 'default': 'shared'},
+    'unity': {'kind': 'combo', 'choices': ['on', 'off', 'subprojects'], 'default': 'off'},
+    'strip': {'kind': 'boolean', 'default': 'false'},
+    'stdsplit': {'kind': 'boolean', 'default': 'true'},
+}
+# "When the prefix is /usr: sysconfdir defaults to /etc, localstatedir to /var, sharedstatedir to /var/lib; when the prefix is
+# /usr/local: localstatedir defaults to /var/local and sharedstatedir to /var/local/lib" (Builtin-options.md)
+PREFIX_DEPENDENT: T.Dict[str, T.Dict[str, str]] = {
+    'sysconfdir': {'/usr': '/etc'},
+    'localstatedir': {'/usr': '/var', '/usr/local': '/var/local'},
+    'sharedstatedir': {'/usr': '/var/lib', '/usr/local': '/var/local/lib'},
+}
+ALL_BUILTINS: T.Dict[str, T.Dict[str, T.Any]] = {**BUILTINS, **GLOBALS}
+
+
+def long_spelling(name: str) -> str:
+    """The dedicated command-line spelling of a builtin option (Builtin-options.md: `--prefix`, `--warnlevel` ...)."""
+    return '--warnlevel' if name == 'warning_level' else '--' + name.replace('_', '-')
+
 
 def mstr(s: str) -> str:
     """A meson string literal for s (Syntax.md, "Strings": backslash and single quote are escaped; a line break and a tab
@@ -159,6 +195,9 @@ class State:
         self.record: T.Dict[str, str] = {}
         self.gone: T.Set[str] = set()
         self.builtin_default: T.Dict[str, str] = {}
+        # the prefix was changed by a command other than a first configuration: whether the directory defaults derived
+        # from it follow is not documented -> they are not compared until the next first configuration (setup / --wipe)
+        self.prefix_moved = False
         # did the (sub)project have an option file when the build files were last interpreted (setup/reconfigure/wipe)?
         self.optfile_seen: T.Dict[str, bool] = {'': True, 'sub': True}
 
@@ -186,8 +225,8 @@ class Model:
     # ---- helpers --------------------------------------------------------------------
     def _spec_for(self, k: str, applied: T.Dict[str, Files]) -> T.Optional[Spec]:
         sub, _, name = k.rpartition(':')
-        if name in BUILTINS:
-            b = BUILTINS[name]
+        if name in BUILTINS or (not sub and name in GLOBALS):
+            b = ALL_BUILTINS[name]
             return Spec(name, b['kind'], b['default'], b.get('choices'), b.get('min'), b.get('max'))
         if sub == 'late':
             return self.files.get('late', {}).get(name)     # also while still pending (static declarations)
@@ -221,7 +260,12 @@ class Model:
         cmdline = the options given on / recorded from the command line, which beat a subproject's own default_options:
         Builtin-options.md, "the value is overridden in this order")."""
         if initial:
-            st.builtin_default = {n: v for n, v in self.dopts[''].items() if n in BUILTINS}
+            st.builtin_default = {n: v for n, v in self.dopts[''].items() if n in ALL_BUILTINS}
+            # first configuration: the directory defaults that depend on the prefix are derived from the prefix in effect now
+            pfx = cmdline.get('prefix', st.builtin_default.get('prefix', GLOBALS['prefix']['default']))
+            for n, mp in PREFIX_DEPENDENT.items():
+                if n not in st.builtin_default:
+                    st.builtin_default[n] = mp.get(pfx, GLOBALS[n]['default'])
             for n, v in self.dopts['sub'].items():
                 if n in BUILTINS and n not in cmdline:
                     st.user['sub:' + n] = v
@@ -263,13 +307,20 @@ class Model:
             ks += [key(sub, n) for n in self.st.applied[sub]]
         for b in BUILTINS:
             ks += [b, 'sub:' + b]
+        ks += list(GLOBALS)
         if self.st.late:
             ks += [key('late', n) for n in self.st.applied['late']] + ['late:' + b for b in BUILTINS]
         return ks
 
-    def value(self, k: str) -> str:
+    def value(self, k: str) -> T.Optional[str]:     # type: ignore[return]
         st = self.st
         sub, _, name = k.rpartition(':')
+        if not sub and name in GLOBALS:
+            if k in st.user:
+                return st.user[k]
+            if name in PREFIX_DEPENDENT and st.prefix_moved:
+                return None     # not comparable (documents silent)
+            return st.builtin_default.get(name, GLOBALS[name]['default'])
         if name in BUILTINS:
             if sub:
                 return st.user.get(k, self.value(name))
@@ -324,8 +375,9 @@ class Model:
             elif sub and st.applied[sub][name].yielding and k not in st.user:
                 dirty = True    # an option that stops yielding is a change even if the value is the same
             else:
-                kd = BUILTINS[name]['kind'] if name in BUILTINS else st.applied[sub][name].kind
-                dirty |= canon(kd, probe.value(k)) != canon(kd, v)
+                kd = ALL_BUILTINS[name]['kind'] if name in ALL_BUILTINS else st.applied[sub][name].kind
+                cur = probe.value(k)
+                dirty |= cur is None or canon(kd, cur) != canon(kd, v)
         for k in unset:
             dirty |= k in st.user
         if not dirty:
@@ -334,6 +386,8 @@ class Model:
             for k in unset:
                 self.st.record.pop(k, None)
             return True
+        if 'prefix' in assign and assign['prefix'] != probe.value('prefix'):
+            st.prefix_moved = True
         for k, v in assign.items():
             st.user[k] = v
             st.record[k] = v
@@ -349,6 +403,8 @@ class Model:
         self._apply_files(st)
         if not self._check_assign(assign, st.applied) or inject_failure:
             return False
+        if 'prefix' in assign and assign['prefix'] != self.value('prefix'):
+            st.prefix_moved = True
         for k, v in assign.items():
             st.user[k] = v
             st.record[k] = v
